@@ -291,6 +291,28 @@ pub fn run(rep: &mut Report) {
                     cx.ok("PlainDate::to_plain_date_time", &dt, v_datetime);
                     // midnight of the first representable date is not a representable date-time
                     cx.exact("PlainDate::to_plain_date_time", if k == MIN_DAY { "first-date-midnight" } else { "inside" }, dt.map(|x| pdt_local_ns(&x)), if k as i128 * NS_PER_DAY > -DT_LIMIT { Some(k as i128 * NS_PER_DAY) } else { None });
+                    // the infallible conversion must not hand out an unrepresentable date-time either
+                    let dt = call_inf(|| PlainDateTime::from(pd.clone()));
+                    cx.ok("PlainDateTime::from(PlainDate)", &dt, v_datetime);
+                    // into a zone, with an explicit time of day and at the start of the day
+                    let tod = *r.pick(&[0i128, 0, 1, NS_PER_DAY - 1, 43_200_000_000_000, 3_600_000_000_000]);
+                    let off_min = *r.pick(&[0i64, 0, 60, -60, 1439, -1439, 330, -420]);
+                    let zone = if off_min == 0 { "UTC".to_string() } else { format!("{}{:02}:{:02}", if off_min < 0 { '-' } else { '+' }, off_min.abs() / 60, off_min.abs() % 60) };
+                    cx.case["zone"] = json!(zone);
+                    cx.case["time_of_day_ns"] = json!(tod.to_string());
+                    if let (Ok(tz), Ok(time)) = (TimeZone::try_from_str(&zone), PlainTime::new((tod / 3_600_000_000_000) as u8, (tod / 60_000_000_000 % 60) as u8, (tod / 1_000_000_000 % 60) as u8, (tod / 1_000_000 % 1000) as u16, (tod / 1000 % 1000) as u16, (tod % 1000) as u16)) {
+                        let local = k as i128 * NS_PER_DAY + tod;
+                        let inst = local - off_min as i128 * 60_000_000_000;
+                        let fits = local > -DT_LIMIT && local < DT_LIMIT && inst.abs() <= MAXI;
+                        let g = call(|| pd.to_zoned_date_time_with_provider(tz.clone(), Some(time), &fs));
+                        cx.ok("PlainDate::to_zoned_date_time(time)", &g, v_zoned);
+                        cx.exact("PlainDate::to_zoned_date_time(time)", if fits { "inside" } else { "beyond-limit" }, g.map(|z| z.epoch_nanoseconds().as_i128()), if fits { Some(inst) } else { None });
+                        let inst0 = k as i128 * NS_PER_DAY - off_min as i128 * 60_000_000_000;
+                        let fits0 = inst0.abs() <= MAXI;
+                        let g = call(|| pd.to_zoned_date_time_with_provider(tz.clone(), None, &fs));
+                        cx.ok("PlainDate::to_zoned_date_time(start of day)", &g, v_zoned);
+                        cx.exact("PlainDate::to_zoned_date_time(start of day)", if fits0 { "inside" } else { "beyond-limit" }, g.map(|z| z.epoch_nanoseconds().as_i128()), if fits0 { Some(inst0) } else { None });
+                    }
                 }
             }
             // ------------------------------------------------ date-times at the limits
@@ -467,6 +489,35 @@ pub fn run(rep: &mut Report) {
                                 }
                             }
                         }
+                    }
+                }
+                // wall-clock readings whose instant lies within a second of the limit, resolved through the bundled zone data
+                // (zones whose offset is constant there; the lower limit only for zones that never had another offset)
+                {
+                    let (zone, off_s, both_sides) = *r.pick(&[("UTC", 0i128, true), ("America/Phoenix", -25_200, false), ("Asia/Kolkata", 19_800, false), ("Etc/GMT+12", -43_200, true), ("Etc/GMT-14", 50_400, true), ("Pacific/Kiritimati", 50_400, false)]);
+                    let side: i128 = if both_sides && r.bool() { -1 } else { 1 };
+                    let delta = *r.pick(&[-1_000_000_001i128, -1_000_000_000, -999_999_999, -500_000_000, -1, 0, 1, 500_000_000, 999_999_999, 1_000_000_000, 1_000_000_001]);
+                    let inst = side * MAXI + delta;
+                    let local = inst + off_s * 1_000_000_000;
+                    cx.case["zone"] = json!(zone);
+                    cx.case["instant_ns"] = json!(inst.to_string());
+                    // a wall-clock date more than 1e8 days from the epoch is refused before the zone is consulted (CheckISODaysRange),
+                    // although its instant may be representable: not judged
+                    if local.div_euclid(NS_PER_DAY).abs() > 100_000_000 {
+                        cx.rep.hit("boundary/local-day-beyond-1e8-not-judged");
+                    } else if let (Ok(tz), Out::Ok(pdt)) = (TimeZone::try_from_str(zone), call(|| pdt_from_local(local))) {
+                        let exp = if inst.abs() <= MAXI { Some(inst) } else { None };
+                        let shape = if inst.abs() < MAXI { "just-inside-limit" } else if inst.abs() == MAXI { "at-limit" } else { "just-beyond-limit" };
+                        let ld = local.div_euclid(NS_PER_DAY);
+                        let (y, m, d) = civil_from_days(ld as i64);
+                        let text = format!("{}-{:02}-{:02}T{}[{}]", fmt_year(y), m, d, fmt_ns_of_day(local.rem_euclid(NS_PER_DAY)), zone);
+                        cx.case["text"] = json!(text);
+                        let g = call(|| pdt.to_zoned_date_time_with_provider(&tz, Disambiguation::Compatible, &fs));
+                        cx.ok("PlainDateTime::to_zoned_date_time(named zone)", &g, v_zoned);
+                        cx.exact("PlainDateTime::to_zoned_date_time(named zone)", shape, g.map(|z| z.epoch_nanoseconds().as_i128()), exp);
+                        let g = call(|| ZonedDateTime::from_str_with_provider(&text, Disambiguation::Compatible, OffsetDisambiguation::Reject, &fs));
+                        cx.ok("ZonedDateTime::from_str(named zone)", &g, v_zoned);
+                        cx.exact("ZonedDateTime::from_str(named zone)", shape, g.map(|z| z.epoch_nanoseconds().as_i128()), exp);
                     }
                 }
                 // zoned arithmetic at the limits stays in range
